@@ -504,8 +504,8 @@ class FunctionParser(BaseParser):
             else:
                 optional_name = k
 
-    def resolve_forward_refs(self, local_vars=None, ignore_errors: bool = True):
-        resolved = super().resolve_forward_refs(
+    def _resolve_forward_refs(self, local_vars=None, ignore_errors: bool = True):
+        resolved = super()._resolve_forward_refs(
             local_vars=local_vars, ignore_errors=ignore_errors
         )
         if resolved:
